@@ -149,7 +149,6 @@ theorem persistFooter_eq (sb : SegBase) (c : Nat) :
       encodeFooter (valsOf sb (crcUpdate c (encodeFields headRows (valsOf sb 0)))) := by
   rw [encodeFooter_split, persistFooter, crcFields_eq]
   congr 1
-  exact (head_indep _ _).symm
 
 /-- The writer run on a freshly initialised segment base whose `memCRC` is the CRC of `mem`
     (new.go:74: `InitSegmentBase(br.Bytes(), s.w.Sum32(), …)`) produces `persistBytes`. -/
@@ -165,7 +164,6 @@ theorem persistBytes_eq (mem : Bytes) (numDocs storedIdx sectionsIdx chunkMode :
         beBytes 4 (crc32 (mem ++ footerHead numDocs storedIdx sectionsIdx chunkMode)) := by
   rw [persistBytes, encodeFooter_split, crc32_append, List.append_assoc]
   congr 2
-  exact head_indep _ _
 
 theorem footerVals_fit (mem : Bytes) (numDocs storedIdx sectionsIdx chunkMode : Nat)
     (hmem : ∀ x ∈ mem, x < 256) (h1 : numDocs < 2 ^ 64) (h2 : storedIdx < 2 ^ 64)
